@@ -90,7 +90,10 @@ def main():
     job = json.loads(Path(sys.argv[1]).read_text())
     out = open(job["out"], "w")
 
+    home = os.getcwd()
+
     def emit(**e):
+        e["wd"] = "start" if os.getcwd() == home else "moved:" + os.getcwd()
         out.write(json.dumps(e, sort_keys=True) + "\n")
         out.flush()
 
@@ -119,6 +122,16 @@ def main():
                 live[i] = (c, C.Calculator(job["datasets"][c]))
                 if job["mode"] == "run":
                     emit(ev="Construct", id=str(i), cfg=c, shared=shared_digest())
+            elif name == "Rewrite":
+                # the files at path c are replaced by those of data set d (originals are kept in <dir>.orig by the harness)
+                c, d = act[1], act[2]
+                dst = Path(job["datasets"][c]).parent
+                src = Path(job["originals"][d])
+                for f in src.iterdir():
+                    if f.is_file():
+                        (dst / f.name).write_bytes(f.read_bytes())
+                if job["mode"] == "run":
+                    emit(ev="Rewrite", path=c, data=d, shared=shared_digest())
             elif name == "Read":
                 i, q = act[1], act[2]
                 obs_event(i, q, observe(live[i][1], q))
